@@ -170,6 +170,9 @@ SKELETONS = [
     "<table><tr><td><svg><desc><td>", "<xmp><b>", "<iframe></iframe><noembed>x</noembed>", "<html><frameset>", "<dd><svg><dd>",
     "<table> x<!--c--><tr> <td> </table>", "<table><tr>\0x", "<svg>\0a\0", "<template>\0</template>", "<table><select><tr>",
     "<link charset=x><base charset=y><meta http-equiv=Content-Type content='a;charset=b'>",
+    "<head><noscript></br>", "<frameset></frameset></html><html a=b>", "<b><i><em><s><u><p>x</b>y",
+    "<b><p><div><div><div><div><div><div><div><div><div>x</b>y", "<a><b><i><em><s><u><tt><div><a>",
+    "<b a=1><b a=2><b a=3><b a=4><b a=5><b a=6><b a=7><b a=8><b a=9><p></b>x",
 ]
 
 
